@@ -91,6 +91,7 @@ extern "C" int w_isBasisValid(int* rows, int rsize, int* cols, int csize, double
 {
    VIN("nr", nr); VIN("nc", nc); VIN("rsize", rsize); VIN("csize", csize); VIN("rep", rep);
    VIN_ARR8("rows", rows, rsize); VIN_ARR8("cols", cols, csize);
+   VIN_ARR8("lhs", lhs, nr); VIN_ARR8("rhs", rhs, nr); VIN_ARR8("lower", lower, nc); VIN_ARR8("upper", upper, nc);
    basis_stub_force_ctors();
    H s; basis_stub_init(s, lhs, rhs, nr, lower, upper, nc, 0, 0, rep);
    s.p_rows.data = (VS*)rows; s.p_rows.thesize = rsize; s.p_cols.data = (VS*)cols; s.p_cols.thesize = csize;
